@@ -7,6 +7,7 @@ import (
 	"io"
 	"os"
 	"path/filepath"
+	"runtime"
 	"sync"
 	"testing"
 
@@ -35,7 +36,18 @@ type caseC13 struct {
 	Reps int     `json:"reps"`
 }
 
-var c13OpNames = []string{"WriteTo", "String", "Dump", "WellFormed", "Accessors", "ReadPacket(private)", "will.WriteTo", "will.String", "will.Accessors"}
+var c13OpNames = []string{"WriteTo", "String", "Dump", "WellFormed", "Accessors", "ReadPacket(private)", "will.WriteTo", "will.String", "will.Accessors", "Dump(yielding writer)", "WriteTo(yielding writer)"}
+
+// yieldWriter copies what it is given, yielding the processor before and
+// after, like a connection or a locked log writer would.
+type yieldWriter struct{ got []byte }
+
+func (w *yieldWriter) Write(p []byte) (int, error) {
+	runtime.Gosched()
+	w.got = append(w.got, p...)
+	runtime.Gosched()
+	return len(p), nil
+}
 
 func checkC13(c caseC13) (sig, msg string) {
 	m, err := unpackModel(c.ModelGob)
@@ -87,6 +99,14 @@ func checkC13(c caseC13) (sig, msg string) {
 						_ = api.Observe(p)
 					case 5:
 						_, _ = mq.ReadPacket(bytes.NewReader(seq))
+					case 9:
+						mq.Dump(&yieldWriter{}, p)
+					case 10:
+						w := &yieldWriter{}
+						_, _ = p.WriteTo(w)
+						if !bytes.Equal(w.got, seq) {
+							errs <- fmt.Sprintf("concurrent WriteTo to a yielding writer in goroutine %d produced %s, sequential %s", g, hx(w.got), hx(seq))
+						}
 					case 6:
 						if will != nil {
 							var buf bytes.Buffer
@@ -162,13 +182,13 @@ func TestC13(t *testing.T) {
 		plan := drawPlan(t, &m)
 		g := rapid.IntRange(2, 8).Draw(t, "goroutines")
 		c := caseC13{ModelGob: packModel(m), Model: m.String(), Plan: plan, Reps: 5}
-		maxOp := 5
+		opset := []int{0, 1, 2, 3, 4, 5, 9, 10}
 		if m.Will != nil {
-			maxOp = 8
+			opset = append(opset, 6, 7, 8)
 		}
 		hasWrite, hasOther := false, false
 		for i := 0; i < g; i++ {
-			ops := rapid.SliceOfN(rapid.IntRange(0, maxOp), 1, 6).Draw(t, "ops")
+			ops := rapid.SliceOfN(rapid.SampledFrom(opset), 1, 6).Draw(t, "ops")
 			c.Ops = append(c.Ops, ops)
 			for _, o := range ops {
 				if o == 0 {
